@@ -1716,6 +1716,10 @@ fn replay(r: &Value) -> ! {
             res.attempts, res.init_combos, res.fin_combos, res.covered, res.rounds_hist
         );
         found = res.causes;
+    } else if r["part"] == "late-key" {
+        if let Some(v) = late_key_case(r["shared"].as_u64().unwrap_or(0) as usize, r["limit"].as_u64().unwrap_or(1) as usize, r["late"].as_bool().unwrap_or(true), r["writer"].as_u64().unwrap_or(0) as usize) {
+            found.entry(v.sig).or_insert(v.detail);
+        }
     } else if r["part"] == "mixed-depth" {
         let g = |k: &str| r[k].as_u64().unwrap_or(0) as usize;
         if let Some(v) = mixed_depth_case(g("da"), g("db"), g("only_a"), g("only_b"), g("both")) {
@@ -1874,6 +1878,48 @@ fn mixed_depth_case(da: usize, db: usize, only_a: usize, only_b: usize, both: us
                 });
             }
         }
+    }
+    None
+}
+
+/// Both replicas already agree on `shared` keys (written on node 0, brought over by an unlimited exchange); then the
+/// per-round limit is lowered to `limit` and ONE more key is written on one side - a key that sorts before or after all
+/// the shared ones. Its bucket holds nothing else (depth 8), so the limit cannot truncate it: one exchange must bring it over.
+fn late_key_case(shared: usize, limit: usize, late: bool, writer: usize) -> Option<Viol> {
+    use redis_sim::redis::Command;
+    let mut sim = MultiNodeSimulation::new(2, 0);
+    for n in 0..2 {
+        sim.nodes[n].anti_entropy.config.merkle_tree_depth = 8;
+        sim.nodes[n].anti_entropy.config.max_keys_per_sync = 100_000;
+    }
+    for i in 0..shared {
+        sim.execute(0, 0, Command::set(format!("m{i:03}"), redis_sim::redis::SDS::from_str("v")));
+    }
+    sim.run_anti_entropy_sync(0, 1);
+    if sim.nodes[0].generate_digest().differs_from(&sim.nodes[1].generate_digest()) {
+        return None; // the unlimited exchange did not equalise: other parts report that
+    }
+    for n in 0..2 {
+        sim.nodes[n].anti_entropy.config.max_keys_per_sync = limit;
+    }
+    let key = if late { "zz-late".to_string() } else { "00-early".to_string() };
+    // the new key must not share its bucket with a shared key (then the limit could truncate legitimately)
+    if (0..shared).any(|i| bucket_of(&format!("m{i:03}"), 8) == bucket_of(&key, 8)) {
+        return None;
+    }
+    sim.execute(writer, writer, Command::set(key.clone(), redis_sim::redis::SDS::from_str("new")));
+    sim.run_anti_entropy_sync(0, 1);
+    let other = 1 - writer;
+    let have = sim.nodes[other].replica_state.replicated_keys.get(&key).map(vh::persist_kit::client_view);
+    if have.as_deref() != Some("string:new") {
+        return Some(Viol {
+            sig: "sync one exchange (limit not truncating) leaves a divergent-bucket key unmerged: key outside the first max_keys_per_sync keys".to_string(),
+            detail: format!(
+                "both replicas agree on {shared} keys m000..; max_keys_per_sync is then set to {limit}; node{writer} writes `{key}` (which sorts {} them and is alone in its bucket); after one run_anti_entropy_sync node{other} holds {:?} for it",
+                if late { "after" } else { "before" }, have
+            ),
+            replay: json!({"part": "late-key", "shared": shared, "limit": limit, "late": late, "writer": writer}),
+        });
     }
     None
 }
@@ -2162,6 +2208,17 @@ fn main() {
         }
     }
     let mixed_depth_cases = mixed_items.len() as u64;
+    // ---- (e) a new key behind (or in front of) more agreed keys than the per-round limit
+    let late_items: Vec<(usize, usize, bool, usize)> = [2usize, 3, 5, 12].iter().flat_map(|s| [1usize, 2, 3].into_iter().flat_map(move |l| [true, false].into_iter().flat_map(move |late| [0usize, 1].into_iter().map(move |w| (*s, l, late, w))))).collect();
+    {
+        let mut seen = BTreeSet::new();
+        for v in par::par_map(&late_items, |_, (s, l, late, w)| late_key_case(*s, *l, *late, *w)).into_iter().flatten() {
+            if seen.insert(v.sig.clone()) {
+                rep.violation(v.sig.clone(), v.detail.clone(), v.replay.clone());
+            }
+        }
+    }
+    let late_key_cases = late_items.len() as u64;
     let t_sync = rep.elapsed_s() - t1;
     let mut sync_runs = 0u64;
     let mut sync_nontrivial = 0u64;
@@ -2277,6 +2334,8 @@ fn main() {
     let mut coverage = coverage;
     coverage["sync_between_replicas_of_different_merkle_depth"] = json!({"cases": mixed_depth_cases,
         "rule": "two replicas with different merkle_tree_depth ((8,4) (4,8) (8,0) (0,8) (1,8) (8,1) (2,3) (12,8)) x six key distributions (keys on one side only, on both with different values, a single key); after ONE run_anti_entropy_sync with a non-truncating limit every key holds the merge on both sides. Digest equality is not judged here: digests of different depths differ by construction"});
+    coverage["new_key_next_to_more_agreed_keys_than_the_limit"] = json!({"cases": late_key_cases,
+        "rule": "both replicas agree on 2/3/5/12 keys; max_keys_per_sync is set to 1/2/3; one more key that sorts after (or before) all of them and is alone in its bucket is written on either side: one exchange must bring it over"});
     coverage["hash_sync_after_one_sided_delivery"] = json!({"cases": hash_items.len(), "cases_with_a_divergent_pair_exchanged": hash_sync_evaluated,
         "rule": "key h: each node does one of [nothing, HSET f, HSET g, HSET f + HDEL f, HSET f + HSET g, SET, SET + DEL] through its real ShardReplicaState; before the exchange nothing / only node1's deltas / only node0's deltas were delivered; merkle depth 0 and 8; then ONE run_anti_entropy_sync with a non-truncating limit: both sides must hold a merge of the two prior values"});
     rep.finish(coverage, assumptions);
